@@ -145,6 +145,7 @@ func (e *Eval) evalLoop(fr *frame, h *ssa.BasicBlock, body map[*ssa.BasicBlock]b
 		}
 		fr.loop = lp
 		e.activeLoops = append(e.activeLoops, lp)
+		e.loopHeaders = append(e.loopHeaders, h)
 		for phi, v := range phiVal {
 			fr.env[phi] = v
 		}
@@ -211,6 +212,7 @@ func (e *Eval) evalLoop(fr *frame, h *ssa.BasicBlock, body map[*ssa.BasicBlock]b
 			}
 		}
 		e.activeLoops = e.activeLoops[:len(e.activeLoops)-1]
+		e.loopHeaders = e.loopHeaders[:len(e.loopHeaders)-1]
 		fr.loop = nil
 		// which symbolic objects were really mutated?
 		next := map[*Obj]bool{}
@@ -493,7 +495,7 @@ func (e *Eval) evalLoop(fr *frame, h *ssa.BasicBlock, body map[*ssa.BasicBlock]b
 	// word lookups inside the loop: did every path to the back edge pass the hit edge?
 	if haveBack {
 		for site, o := range e.lkObj {
-			if site.Block() == nil || !body[site.Block()] {
+			if site.Block() == nil || !(body[site.Block()] || e.lkLoopHdr[site] == h) {
 				continue
 			}
 			if e.LoopHits == nil {
